@@ -11,7 +11,7 @@
 
    Stride > 1 visits only every Stride-th block plus every block near a member of Bound (not used by the shipped
    configurations: the full walk takes a few seconds).                                                          *)
-EXTENDS Utf, TLC, Json, FiniteSets
+EXTENDS UtfCase, TLC, Json, FiniteSets
 CONSTANTS BS,       \* block size (divides 4096, at most 2048 so that the surrogate range is a union of blocks)
           Stride,
           Bound,    \* boundary scalars (non-zero): sequences are built from them
@@ -57,7 +57,12 @@ BoundOK == \A c \in Bound : IsScalar(c) /\ c # 0
 \* table rows: code point, UTF-8, UTF-16 and, for ASCII, the C-locale upper and lower case
 Entry(c) == IF c < 128 THEN <<c, Enc8(c), Enc16(c), UpB(c), LoB(c)>> ELSE <<c, Enc8(c), Enc16(c)>>
 \* for sequences also the lengths of the encodings of every prefix (the conversions take a character limit)
-Emit == /\ lvl' = 2 => PrintT(ToJson([k |-> "blk", e |-> [i \in 1..BS |-> Entry(v' + i - 1)]]))
+\* growth: the case functions on every scalar value.  Below CaseCut the table applies (compared entry by entry in
+\* MC_UtfCase.tla); from CaseCut on UtfCase.tla makes both mappings the identity re-encoded, which for scalar values is
+\* the standard encoding: cid is that statement evaluated by TLC for the block, cut tells the replayer where it starts.
+CaseIdentity(b) == \A c \in b..(b + BS - 1) : c >= CaseCut => (UpperBytesCp(c) = Enc8(c) /\ LowerBytesCp(c) = Enc8(c))
+CaseIdentityOK == lvl = 2 => CaseIdentity(v)
+Emit == /\ lvl' = 2 => PrintT(ToJson([k |-> "blk", e |-> [i \in 1..BS |-> Entry(v' + i - 1)], cut |-> CaseCut, cid |-> CaseIdentity(v')]))
         /\ lvl' = 3 => PrintT(ToJson([k |-> "seq", cs |-> cs', e8 |-> Enc8Seq(cs'), e16 |-> Enc16Seq(cs'),
                                        pl8 |-> [i \in 1..Len(cs') |-> Len(Enc8Seq(SubSeq(cs', 1, i)))],
                                        pl16 |-> [i \in 1..Len(cs') |-> Len(Enc16Seq(SubSeq(cs', 1, i)))]]))
